@@ -16,13 +16,17 @@ NoKid == OctKey(32, "a", NONE, NONE)
 Bad  == WithDefect(OctKey(32, "a", "HS256", "kbad"), "k", "absent")
 Bad2 == WithDefect(OctKey(32, "b", NONE, NONE), "k", "number")
 
+BadEcLong == WithDefect(AsymKey("p256a", 1, NONE, "kec"), "d", "long")
 \* keys that own provider-side objects (removal has to release them, under whichever provider is current)
 KRsa == AsymKey("rsa2048a", 0, "RS256", "k2")
 KEd  == AsymKey("ed25519a", 1, NONE, NONE)
 Loads == { [doc |-> "keys", keys |-> <<K1>>], [doc |-> "single", keys |-> <<K1b>>],
            [doc |-> "keys", keys |-> <<KEd>>], [doc |-> "single", keys |-> <<Bad>>],
            [doc |-> "keys", keys |-> <<KRsa, Bad2, K1>>], [doc |-> "nonjson", keys |-> <<>>],
-           [doc |-> "keys", keys |-> <<>>] }
+           [doc |-> "keys", keys |-> <<>>],
+           \* an errored item that got as far as a provider-side key object before it failed (EC private key whose d is
+           \* too long): removal has to release whatever the import left behind, once
+           [doc |-> "keys", keys |-> <<BadEcLong, K2>>] }
 
 \* the read-back starts and ends with a get at index 2 and is not ascending: an implementation that remembers where
 \* the previous get stopped is asked for the same or a higher index right after the list has changed underneath
